@@ -42,10 +42,11 @@ const (
 	opCrash
 	opSpawn   // bind a further consumer worker to the shared adapter (C13)
 	opAddBare // submit through a bare NewDistributedQueue producer ("another process")
+	opIntro   // every introspection call of the Worker interface (C19 API fuzz)
 	nOps
 )
 
-var opNames = [nOps]string{"Add", "AddAll", "CloseJob", "Purge", "CloseQueue", "Wait", "Result", "Drain", "Status", "BatchWait", "BatchRead", "BatchPending", "Pause", "PauseAndWait", "Resume", "Stop", "WaitAndStop", "Restart", "TunePool", "WaitUntilFinished", "Bind", "CancelCtx", "OpenGate", "Settle", "Advance", "Sample", "QueuePending", "Yield", "Crash", "SpawnConsumer", "AddBare"}
+var opNames = [nOps]string{"Add", "AddAll", "CloseJob", "Purge", "CloseQueue", "Wait", "Result", "Drain", "Status", "BatchWait", "BatchRead", "BatchPending", "Pause", "PauseAndWait", "Resume", "Stop", "WaitAndStop", "Restart", "TunePool", "WaitUntilFinished", "Bind", "CancelCtx", "OpenGate", "Settle", "Advance", "Sample", "QueuePending", "Yield", "Crash", "SpawnConsumer", "AddBare", "Introspect"}
 
 // Op: K kind; Q queue index; A argument (sub number, batch number, tune value,
 // time units, bind kind); Subs: submission numbers of an Add/AddAll.
@@ -383,6 +384,27 @@ func (wd *World) runOp(op Op) {
 		r.end(c)
 	case opYield:
 		simrt.YieldAlways()
+	case opIntro:
+		c := r.begin(opIntro, -1, -1)
+		n := 0
+		if w.Errs() != nil {
+			n++
+		}
+		if w.Context() != nil {
+			n++
+		}
+		if w.IsRunning() || w.IsPaused() || w.IsStopped() {
+			n++
+		}
+		m := w.Metrics()
+		n += int(m.Submitted()+m.Completed()+m.Successful()+m.Failed()) & 1
+		n += w.NumIdleWorkers() + w.NumConcurrency() + w.NumPending() + w.NumProcessing()
+		c.Str = w.Status()
+		if q := wd.queue(op.Q); q != nil {
+			n += q.nump()
+		}
+		c.Val = n
+		r.end(c)
 	case opSpawn:
 		root := wd.root
 		if root.sharedAd == nil || len(root.qs) == 0 {
@@ -486,6 +508,8 @@ func (wd *World) sample(atRest bool) {
 		cs = append(cs, c)
 	}
 	for _, q := range wd.qs {
+		q.hb.Lock()
+		q.hb.Unlock()
 		c := r.begin(opQueuePending, q.idx, -1)
 		c.Val = q.nump()
 		r.end(c)
